@@ -181,6 +181,35 @@ def run(prog: Program, res: Result) -> None:  # noqa: PLR0912, PLR0915
             res.ok("C15.R1", f"{eff.file}:{eff.node.lineno} _extract_from_filters", what, "read")
         else:
             res.fail("C15.R1", file=eff.file, line=eff.node.lineno, qualname="_extract_from_filters", construct=f"_extract_from_filters ignores .{attr}", message=f"translation filters applied to `{attr}` of a (ternary) filtered expression are never extracted", what=what)
+    # operand/filter pairs: which literal can meet which first filter at run time (read off FilteredExpression.evaluate and
+    # TernaryFilteredExpression.evaluate: `filters` apply to the alternative, `tail_filters` to whichever branch was chosen)
+    required_pairs = {
+        ("expression.left", "expression.filters"): "FilteredExpression: left | filters",
+        ("expression.alternative", "expression.filters"): "ternary: alternative | filters",
+        ("expression.left.left", "expression.tail_filters"): "ternary: chosen left branch || tail filters",
+        ("expression.alternative", "expression.tail_filters"): "ternary: chosen alternative || tail filters",
+    }
+    pairs: set[tuple[str, str]] = set()
+    helpers_ = {n_: f_ for n_, f_ in msgs.functions.items() if any(isinstance(c, ast.Call) and isinstance(c.func, ast.Attribute) and c.func.attr == "message" for c in ast.walk(f_.node))}
+    for c in ast.walk(eff.node):
+        if isinstance(c, ast.Call) and isinstance(c.func, ast.Name) and c.func.id in helpers_ and c.func.id != eff.name:
+            hp = helpers_[c.func.id].params()
+            bound = {hp[i]: a for i, a in enumerate(c.args) if i < len(hp)}
+            bound.update({k.arg: k.value for k in c.keywords if k.arg})
+            lp = next((p_ for p_ in hp if p_ in ("left", "operand")), None)
+            fp = next((p_ for p_ in hp if "filter" in p_), None)
+            if lp in bound and fp in bound:
+                pairs.add((norm(bound[lp]), norm(bound[fp])))
+        if isinstance(c, ast.Call) and isinstance(c.func, ast.Attribute) and c.func.attr == "message" and len(c.args) >= 2:
+            flt = norm(c.args[1])
+            src = next((norm(a.value.value) for a in ast.walk(eff.node) if isinstance(a, ast.Assign) and any(norm(t) == flt for t in a.targets) and isinstance(a.value, ast.Subscript)), flt)
+            pairs.add((norm(c.args[0]), src))
+    for pair, label in required_pairs.items():
+        what = f"_extract_from_filters offers `{pair[0]}` to the first filter of `{pair[1]}` ({label})"
+        if pair in pairs:
+            res.ok("C15.R1", f"{eff.file}:{eff.node.lineno} _extract_from_filters", what, "pair extracted")
+        else:
+            res.fail("C15.R1", file=eff.file, line=eff.node.lineno, qualname="_extract_from_filters", construct=f"pair {pair[0]} | {pair[1]} not extracted", message=f"{label}: at run time the first filter of `{pair[1]}` can receive the literal `{pair[0]}` and look it up in the catalog, but the extractor never offers that operand to that filter's message()", what=what)
     # every registered translatable filter class defines message(); every TranslatableTag node defines messages()
     tf = prog.resolve_abs("liquid2.messages.TranslatableFilter")
     tt = prog.resolve_abs("liquid2.messages.TranslatableTag")
